@@ -2,10 +2,13 @@ package c19
 
 import (
 	"encoding/json"
+	"path/filepath"
 	"time"
 
 	"cosmossdk.io/log"
 	sdkmath "cosmossdk.io/math"
+	wasmkeeper "github.com/CosmWasm/wasmd/x/wasm/keeper"
+	wasmvm "github.com/CosmWasm/wasmvm/v2"
 	abci "github.com/cometbft/cometbft/abci/types"
 	cmted25519 "github.com/cometbft/cometbft/crypto/ed25519"
 	tmtypes "github.com/cometbft/cometbft/types"
@@ -25,8 +28,16 @@ import (
 )
 
 // newApp builds an application on a fresh in-memory database (no InitChain yet).
-func newApp(dir string, db cosmosdb.DB) *app.OsmosisApp {
-	return app.NewOsmosisApp(log.NewNopLogger(), db, nil, true, map[int64]bool{}, dir, 0, sims.EmptyAppOptions{}, app.EmptyWasmOpts, baseapp.SetChainID(ChainID))
+// newApp builds the application with a CosmWasm VM that the caller owns (the application itself never releases its VM:
+// hundreds of nodes per process would pile up their module caches and address-space reservations). Same settings as
+// the keeper's own default: directory <home>/wasm/wasm, built-in capabilities plus "osmosis", 32 MiB per contract.
+func newApp(dir string, db cosmosdb.DB) (*app.OsmosisApp, *wasmvm.VM) {
+	vm, err := wasmvm.NewVM(filepath.Join(dir, "wasm", "wasm"), append(wasmkeeper.BuiltInCapabilities(), "osmosis"), 32, false, 64)
+	if err != nil {
+		panic(err)
+	}
+	a := app.NewOsmosisApp(log.NewNopLogger(), db, nil, true, map[int64]bool{}, dir, 0, sims.EmptyAppOptions{}, []wasmkeeper.Option{wasmkeeper.WithWasmEngine(vm)}, baseapp.SetChainID(ChainID))
+	return a, vm
 }
 
 var genesisBytes []byte
